@@ -36,7 +36,7 @@ package hotstuffpb
 
 // ---- C12: what the two directions of the signature conversion establish.
 // encodes(p, sig): the wire signature p lists sig's signers and signature bytes in sig's order.
-//@ pred encodes(p *QuorumSignature, sig hotstuff.QuorumSignature) = p != nil && (sig == nil ==> p.Sig == nil) && (istype(sig, crypto.Multi[*crypto.ECDSASignature]) ==> istype(p.Sig, *QuorumSignature_ECDSASigs) && as(p.Sig, *QuorumSignature_ECDSASigs) != nil && as(p.Sig, *QuorumSignature_ECDSASigs).ECDSASigs != nil && len(as(p.Sig, *QuorumSignature_ECDSASigs).ECDSASigs.Sigs) == len(as(sig, crypto.Multi[*crypto.ECDSASignature])) && (forall i int :: {as(p.Sig, *QuorumSignature_ECDSASigs).ECDSASigs.Sigs[i]} 0 <= i && i < len(as(sig, crypto.Multi[*crypto.ECDSASignature])) ==> as(p.Sig, *QuorumSignature_ECDSASigs).ECDSASigs.Sigs[i] != nil && as(p.Sig, *QuorumSignature_ECDSASigs).ECDSASigs.Sigs[i].Signer == as(sig, crypto.Multi[*crypto.ECDSASignature])[i].signer && sameslice(as(p.Sig, *QuorumSignature_ECDSASigs).ECDSASigs.Sigs[i].Sig, as(sig, crypto.Multi[*crypto.ECDSASignature])[i].sig))) && (istype(sig, crypto.Multi[*crypto.EDDSASignature]) ==> istype(p.Sig, *QuorumSignature_EDDSASigs) && as(p.Sig, *QuorumSignature_EDDSASigs) != nil && as(p.Sig, *QuorumSignature_EDDSASigs).EDDSASigs != nil && len(as(p.Sig, *QuorumSignature_EDDSASigs).EDDSASigs.Sigs) == len(as(sig, crypto.Multi[*crypto.EDDSASignature])) && (forall i int :: {as(p.Sig, *QuorumSignature_EDDSASigs).EDDSASigs.Sigs[i]} 0 <= i && i < len(as(sig, crypto.Multi[*crypto.EDDSASignature])) ==> as(p.Sig, *QuorumSignature_EDDSASigs).EDDSASigs.Sigs[i] != nil && as(p.Sig, *QuorumSignature_EDDSASigs).EDDSASigs.Sigs[i].Signer == as(sig, crypto.Multi[*crypto.EDDSASignature])[i].signer && content(as(p.Sig, *QuorumSignature_EDDSASigs).EDDSASigs.Sigs[i].Sig) == content(as(sig, crypto.Multi[*crypto.EDDSASignature])[i].sig) && len(as(p.Sig, *QuorumSignature_EDDSASigs).EDDSASigs.Sigs[i].Sig) == len(as(sig, crypto.Multi[*crypto.EDDSASignature])[i].sig)))
+//@ pred encodes(p *QuorumSignature, sig hotstuff.QuorumSignature) = p != nil && (sig == nil ==> p.Sig == nil) && (istype(sig, crypto.Multi[*crypto.ECDSASignature]) ==> istype(p.Sig, *QuorumSignature_ECDSASigs) && as(p.Sig, *QuorumSignature_ECDSASigs) != nil && as(p.Sig, *QuorumSignature_ECDSASigs).ECDSASigs != nil && allocated(as(p.Sig, *QuorumSignature_ECDSASigs)) && allocated(as(p.Sig, *QuorumSignature_ECDSASigs).ECDSASigs) && (len(as(p.Sig, *QuorumSignature_ECDSASigs).ECDSASigs.Sigs) == 0 || allocated(as(p.Sig, *QuorumSignature_ECDSASigs).ECDSASigs.Sigs)) && len(as(p.Sig, *QuorumSignature_ECDSASigs).ECDSASigs.Sigs) == len(as(sig, crypto.Multi[*crypto.ECDSASignature])) && (forall i int :: {as(p.Sig, *QuorumSignature_ECDSASigs).ECDSASigs.Sigs[i]} 0 <= i && i < len(as(sig, crypto.Multi[*crypto.ECDSASignature])) ==> as(p.Sig, *QuorumSignature_ECDSASigs).ECDSASigs.Sigs[i] != nil && allocated(as(p.Sig, *QuorumSignature_ECDSASigs).ECDSASigs.Sigs[i]) && (len(as(p.Sig, *QuorumSignature_ECDSASigs).ECDSASigs.Sigs[i].Sig) == 0 || allocated(as(p.Sig, *QuorumSignature_ECDSASigs).ECDSASigs.Sigs[i].Sig)) && as(p.Sig, *QuorumSignature_ECDSASigs).ECDSASigs.Sigs[i].Signer == as(sig, crypto.Multi[*crypto.ECDSASignature])[i].signer && sameslice(as(p.Sig, *QuorumSignature_ECDSASigs).ECDSASigs.Sigs[i].Sig, as(sig, crypto.Multi[*crypto.ECDSASignature])[i].sig))) && (istype(sig, crypto.Multi[*crypto.EDDSASignature]) ==> istype(p.Sig, *QuorumSignature_EDDSASigs) && as(p.Sig, *QuorumSignature_EDDSASigs) != nil && as(p.Sig, *QuorumSignature_EDDSASigs).EDDSASigs != nil && allocated(as(p.Sig, *QuorumSignature_EDDSASigs)) && allocated(as(p.Sig, *QuorumSignature_EDDSASigs).EDDSASigs) && (len(as(p.Sig, *QuorumSignature_EDDSASigs).EDDSASigs.Sigs) == 0 || allocated(as(p.Sig, *QuorumSignature_EDDSASigs).EDDSASigs.Sigs)) && len(as(p.Sig, *QuorumSignature_EDDSASigs).EDDSASigs.Sigs) == len(as(sig, crypto.Multi[*crypto.EDDSASignature])) && (forall i int :: {as(p.Sig, *QuorumSignature_EDDSASigs).EDDSASigs.Sigs[i]} 0 <= i && i < len(as(sig, crypto.Multi[*crypto.EDDSASignature])) ==> as(p.Sig, *QuorumSignature_EDDSASigs).EDDSASigs.Sigs[i] != nil && allocated(as(p.Sig, *QuorumSignature_EDDSASigs).EDDSASigs.Sigs[i]) && (len(as(p.Sig, *QuorumSignature_EDDSASigs).EDDSASigs.Sigs[i].Sig) == 0 || allocated(as(p.Sig, *QuorumSignature_EDDSASigs).EDDSASigs.Sigs[i].Sig)) && as(p.Sig, *QuorumSignature_EDDSASigs).EDDSASigs.Sigs[i].Signer == as(sig, crypto.Multi[*crypto.EDDSASignature])[i].signer && content(as(p.Sig, *QuorumSignature_EDDSASigs).EDDSASigs.Sigs[i].Sig) == content(as(sig, crypto.Multi[*crypto.EDDSASignature])[i].sig) && len(as(p.Sig, *QuorumSignature_EDDSASigs).EDDSASigs.Sigs[i].Sig) == len(as(sig, crypto.Multi[*crypto.EDDSASignature])[i].sig)))
 // decodes(s, p): the signature s restored from the wire signature p lists p's entries in order.
 //@ pred decodes(s hotstuff.QuorumSignature, p *QuorumSignature) = (p != nil && istype(p.Sig, *QuorumSignature_ECDSASigs) && as(p.Sig, *QuorumSignature_ECDSASigs).ECDSASigs != nil ==> istype(s, crypto.Multi[*crypto.ECDSASignature]) && len(as(s, crypto.Multi[*crypto.ECDSASignature])) == len(as(p.Sig, *QuorumSignature_ECDSASigs).ECDSASigs.Sigs) && (forall i int :: {as(s, crypto.Multi[*crypto.ECDSASignature])[i]} 0 <= i && i < len(as(p.Sig, *QuorumSignature_ECDSASigs).ECDSASigs.Sigs) ==> as(s, crypto.Multi[*crypto.ECDSASignature])[i] != nil && as(s, crypto.Multi[*crypto.ECDSASignature])[i].signer == as(p.Sig, *QuorumSignature_ECDSASigs).ECDSASigs.Sigs[i].Signer && sameslice(as(s, crypto.Multi[*crypto.ECDSASignature])[i].sig, as(p.Sig, *QuorumSignature_ECDSASigs).ECDSASigs.Sigs[i].Sig))) && (p != nil && istype(p.Sig, *QuorumSignature_EDDSASigs) && as(p.Sig, *QuorumSignature_EDDSASigs).EDDSASigs != nil ==> istype(s, crypto.Multi[*crypto.EDDSASignature]) && len(as(s, crypto.Multi[*crypto.EDDSASignature])) == len(as(p.Sig, *QuorumSignature_EDDSASigs).EDDSASigs.Sigs) && (forall i int :: {as(s, crypto.Multi[*crypto.EDDSASignature])[i]} 0 <= i && i < len(as(p.Sig, *QuorumSignature_EDDSASigs).EDDSASigs.Sigs) ==> as(s, crypto.Multi[*crypto.EDDSASignature])[i] != nil && as(s, crypto.Multi[*crypto.EDDSASignature])[i].signer == as(p.Sig, *QuorumSignature_EDDSASigs).EDDSASigs.Sigs[i].Signer && sameslice(as(s, crypto.Multi[*crypto.EDDSASignature])[i].sig, as(p.Sig, *QuorumSignature_EDDSASigs).EDDSASigs.Sigs[i].Sig)))
 // samesig(a, b): same scheme, same signers in the same order, same signature bytes (hence the
@@ -61,25 +61,54 @@ package hotstuffpb
 //@   uses crypto.multi_ecdsa_refines
 //@   uses crypto.multi_eddsa_refines
 //@   ensures [fresh] result != nil && fresh(result)
-//@   ensures [ecdsa] istype(sig, crypto.Multi[*crypto.ECDSASignature]) ==> istype(result.Sig, *QuorumSignature_ECDSASigs) && as(result.Sig, *QuorumSignature_ECDSASigs) != nil && as(result.Sig, *QuorumSignature_ECDSASigs).ECDSASigs != nil && len(as(result.Sig, *QuorumSignature_ECDSASigs).ECDSASigs.Sigs) == len(as(sig, crypto.Multi[*crypto.ECDSASignature])) && (forall i int :: {as(result.Sig, *QuorumSignature_ECDSASigs).ECDSASigs.Sigs[i]} 0 <= i && i < len(as(sig, crypto.Multi[*crypto.ECDSASignature])) ==> as(result.Sig, *QuorumSignature_ECDSASigs).ECDSASigs.Sigs[i] != nil && as(result.Sig, *QuorumSignature_ECDSASigs).ECDSASigs.Sigs[i].Signer == as(sig, crypto.Multi[*crypto.ECDSASignature])[i].signer && sameslice(as(result.Sig, *QuorumSignature_ECDSASigs).ECDSASigs.Sigs[i].Sig, as(sig, crypto.Multi[*crypto.ECDSASignature])[i].sig))
-//@   ensures [eddsa] istype(sig, crypto.Multi[*crypto.EDDSASignature]) ==> istype(result.Sig, *QuorumSignature_EDDSASigs) && as(result.Sig, *QuorumSignature_EDDSASigs) != nil && as(result.Sig, *QuorumSignature_EDDSASigs).EDDSASigs != nil && len(as(result.Sig, *QuorumSignature_EDDSASigs).EDDSASigs.Sigs) == len(as(sig, crypto.Multi[*crypto.EDDSASignature])) && (forall i int :: {as(result.Sig, *QuorumSignature_EDDSASigs).EDDSASigs.Sigs[i]} 0 <= i && i < len(as(sig, crypto.Multi[*crypto.EDDSASignature])) ==> as(result.Sig, *QuorumSignature_EDDSASigs).EDDSASigs.Sigs[i] != nil && as(result.Sig, *QuorumSignature_EDDSASigs).EDDSASigs.Sigs[i].Signer == as(sig, crypto.Multi[*crypto.EDDSASignature])[i].signer && content(as(result.Sig, *QuorumSignature_EDDSASigs).EDDSASigs.Sigs[i].Sig) == content(as(sig, crypto.Multi[*crypto.EDDSASignature])[i].sig) && len(as(result.Sig, *QuorumSignature_EDDSASigs).EDDSASigs.Sigs[i].Sig) == len(as(sig, crypto.Multi[*crypto.EDDSASignature])[i].sig))
+//@   ensures [ecdsa] istype(sig, crypto.Multi[*crypto.ECDSASignature]) ==> istype(result.Sig, *QuorumSignature_ECDSASigs) && as(result.Sig, *QuorumSignature_ECDSASigs) != nil && as(result.Sig, *QuorumSignature_ECDSASigs).ECDSASigs != nil && allocated(as(result.Sig, *QuorumSignature_ECDSASigs)) && allocated(as(result.Sig, *QuorumSignature_ECDSASigs).ECDSASigs) && (len(as(result.Sig, *QuorumSignature_ECDSASigs).ECDSASigs.Sigs) == 0 || allocated(as(result.Sig, *QuorumSignature_ECDSASigs).ECDSASigs.Sigs)) && len(as(result.Sig, *QuorumSignature_ECDSASigs).ECDSASigs.Sigs) == len(as(sig, crypto.Multi[*crypto.ECDSASignature])) && (forall i int :: {as(result.Sig, *QuorumSignature_ECDSASigs).ECDSASigs.Sigs[i]} 0 <= i && i < len(as(sig, crypto.Multi[*crypto.ECDSASignature])) ==> as(result.Sig, *QuorumSignature_ECDSASigs).ECDSASigs.Sigs[i] != nil && allocated(as(result.Sig, *QuorumSignature_ECDSASigs).ECDSASigs.Sigs[i]) && (len(as(result.Sig, *QuorumSignature_ECDSASigs).ECDSASigs.Sigs[i].Sig) == 0 || allocated(as(result.Sig, *QuorumSignature_ECDSASigs).ECDSASigs.Sigs[i].Sig)) && as(result.Sig, *QuorumSignature_ECDSASigs).ECDSASigs.Sigs[i].Signer == as(sig, crypto.Multi[*crypto.ECDSASignature])[i].signer && sameslice(as(result.Sig, *QuorumSignature_ECDSASigs).ECDSASigs.Sigs[i].Sig, as(sig, crypto.Multi[*crypto.ECDSASignature])[i].sig))
+//@   ensures [eddsa] istype(sig, crypto.Multi[*crypto.EDDSASignature]) ==> istype(result.Sig, *QuorumSignature_EDDSASigs) && as(result.Sig, *QuorumSignature_EDDSASigs) != nil && as(result.Sig, *QuorumSignature_EDDSASigs).EDDSASigs != nil && allocated(as(result.Sig, *QuorumSignature_EDDSASigs)) && allocated(as(result.Sig, *QuorumSignature_EDDSASigs).EDDSASigs) && (len(as(result.Sig, *QuorumSignature_EDDSASigs).EDDSASigs.Sigs) == 0 || allocated(as(result.Sig, *QuorumSignature_EDDSASigs).EDDSASigs.Sigs)) && len(as(result.Sig, *QuorumSignature_EDDSASigs).EDDSASigs.Sigs) == len(as(sig, crypto.Multi[*crypto.EDDSASignature])) && (forall i int :: {as(result.Sig, *QuorumSignature_EDDSASigs).EDDSASigs.Sigs[i]} 0 <= i && i < len(as(sig, crypto.Multi[*crypto.EDDSASignature])) ==> as(result.Sig, *QuorumSignature_EDDSASigs).EDDSASigs.Sigs[i] != nil && allocated(as(result.Sig, *QuorumSignature_EDDSASigs).EDDSASigs.Sigs[i]) && (len(as(result.Sig, *QuorumSignature_EDDSASigs).EDDSASigs.Sigs[i].Sig) == 0 || allocated(as(result.Sig, *QuorumSignature_EDDSASigs).EDDSASigs.Sigs[i].Sig)) && as(result.Sig, *QuorumSignature_EDDSASigs).EDDSASigs.Sigs[i].Signer == as(sig, crypto.Multi[*crypto.EDDSASignature])[i].signer && content(as(result.Sig, *QuorumSignature_EDDSASigs).EDDSASigs.Sigs[i].Sig) == content(as(sig, crypto.Multi[*crypto.EDDSASignature])[i].sig) && len(as(result.Sig, *QuorumSignature_EDDSASigs).EDDSASigs.Sigs[i].Sig) == len(as(sig, crypto.Multi[*crypto.EDDSASignature])[i].sig))
 //@   ensures [absent] sig == nil ==> result.Sig == nil
 //@   loop 0 invariant [len] len(sigs) == rangeindex + 1
-//@   loop 0 invariant [encoded] (forall j int :: {sigs[j]} 0 <= j && j <= rangeindex ==> sigs[j] != nil && allocated(sigs[j]) && sigs[j].Signer == ms[j].signer && sameslice(sigs[j].Sig, ms[j].sig))
+//@   loop 0 invariant [encoded] (forall j int :: {sigs[j]} 0 <= j && j <= rangeindex ==> sigs[j] != nil && allocated(sigs[j]) && (len(sigs[j].Sig) == 0 || allocated(sigs[j].Sig)) && sigs[j].Signer == ms[j].signer && sameslice(sigs[j].Sig, ms[j].sig))
 //@   loop 0 invariant [fresh] cap(sigs) > 0 ==> fresh(sigs)
 //@   loop 1 invariant [len] len(sigs) == rangeindex + 1
 //@   loop 1 invariant [encoded] (forall j int :: {sigs[j]} 0 <= j && j <= rangeindex ==> sigs[j] != nil && allocated(sigs[j]) && (len(sigs[j].Sig) == 0 || allocated(sigs[j].Sig)) && sigs[j].Signer == ms[j].signer && content(sigs[j].Sig) == content(ms[j].sig) && len(sigs[j].Sig) == len(ms[j].sig))
 //@   loop 1 invariant [fresh] cap(sigs) > 0 ==> fresh(sigs)
 //@   modifies alloc
 
-//@ func PartialCertFromProto property C10
+//@ func PartialCertToProto property C12
+//@   requires encodable(cert.signature)
+//@   ensures [encoded] result != nil && wpc(result) && encodes(result.Sig, cert.signature) && content(result.Hash) == abytes(cert.blockHash) && len(result.Hash) == 32
+//@   modifies alloc
+//@ func PartialCertFromProto property C10,C12
 //@   requires wpc(cert)
+//@   ensures [decoded] cert != nil ==> decodes(result.signature, cert.Sig) && result.blockHash == afrom(content(cert.Hash), len(cert.Hash), hotstuff.Hash{}) && ((cert.Sig == nil || cert.Sig.Sig == nil) ==> result.signature == nil)
 //@   modifies alloc
-//@ func QuorumCertFromProto property C10
+//@ func verifRoundTripPartialCert property C12
+//@   requires encodable(cert.signature)
+//@   ensures [round-trip] samesig(result.signature, cert.signature) && result.blockHash == cert.blockHash
+//@   modifies alloc
+//@ func QuorumCertToProto property C12
+//@   requires encodable(qc.signature)
+//@   ensures [encoded] result != nil && wqc(result) && encodes(result.Sig, qc.signature) && result.View == qc.view && content(result.Hash) == abytes(qc.hash) && len(result.Hash) == 32
+//@   modifies alloc
+//@ func QuorumCertFromProto property C10,C12
 //@   requires wqc(qc)
+//@   ensures [decoded] qc != nil ==> decodes(result.signature, qc.Sig) && result.view == qc.View && result.hash == afrom(content(qc.Hash), len(qc.Hash), hotstuff.Hash{}) && ((qc.Sig == nil || qc.Sig.Sig == nil) ==> result.signature == nil)
 //@   modifies alloc
-//@ func TimeoutCertFromProto property C10
+//@ func verifRoundTripQuorumCert property C12
+//@   requires encodable(qc.signature)
+//@   ensures [round-trip] samesig(result.signature, qc.signature) && result.view == qc.view && result.hash == qc.hash
+//@   modifies alloc
+//@ func TimeoutCertToProto property C12
+//@   requires encodable(timeoutCert.signature)
+//@   ensures [encoded] result != nil && wtc(result) && encodes(result.Sig, timeoutCert.signature) && result.View == timeoutCert.view
+//@   modifies alloc
+//@ func TimeoutCertFromProto property C10,C12
 //@   requires wtc(m)
+//@   ensures [decoded] m != nil ==> decodes(result.signature, m.Sig) && result.view == m.View && ((m.Sig == nil || m.Sig.Sig == nil) ==> result.signature == nil)
+//@   modifies alloc
+//@ func verifRoundTripTimeoutCert property C12
+//@   requires encodable(tc.signature)
+//@   ensures [round-trip-view] result.view == tc.view
+//@   ensures [round-trip-nil] tc.signature == nil ==> result.signature == nil
+//@   ensures [round-trip] samesig(result.signature, tc.signature)
 //@   modifies alloc
 //@ func AggregateQCFromProto property C10
 //@   requires waqc(m)
